@@ -1669,8 +1669,11 @@ def replay_purity(model, obligation):
         out = {}
         for mod in (segno, encoder, consts, utils, writers, helpers):
             for name, val in mod.__dict__.items():
-                if isinstance(val, (list, dict, set, bytearray, tuple)) and not name.startswith('__'):
-                    out[mod.__name__ + '.' + name] = copy.deepcopy(val)
+                full = mod.__name__ + '.' + name
+                if isinstance(val, (list, dict, set, bytearray, tuple)) and not name.startswith('__') and \
+                        full.startswith(('segno.consts.', 'segno.writers._ALPHA_COMMONS', 'segno.writers._NAME2RGB', 'segno.writers._VALID_SERIALIZERS',
+                                         'segno.helpers._MECARD_ESCAPE', 'segno.helpers._VCARD_ESCAPE', 'segno.cli._EXT_TO_KW_MAPPING')):
+                    out[full] = copy.deepcopy(val)
         return out
 
     def make(c, kw):
@@ -1722,6 +1725,12 @@ def replay_purity(model, obligation):
         if q2.matrix != q.matrix or q2.designator != q.designator:
             probs.append('make(%r, **%r) is %s mask %d; encoding again with that version, level and mask (boost_error=False) gives %s with a different matrix' % (
                 c, kw, q.designator, q.mask, q2.designator))
+    try:
+        probs.extend(purity_battery())
+        if not probs:
+            probs.extend(purity_schedules())
+    except Exception as ex:
+        probs.append('purity battery crashed: %r' % (ex,))
     if snap() != s0:
         s1 = snap()
         probs.append('module level containers changed: %s' % sorted(k for k in s0 if s0[k] != s1.get(k))[:4])
@@ -1914,3 +1923,149 @@ def replay_raster_kind(model, obligation, kind):
                 if probs:
                     return dict(confirmed=True, call=call, detail='; '.join(probs[:3]))
     return dict(confirmed=False, detail='%s files of the tried symbols / scales / borders depict the symbols' % kind)
+
+
+# ---------------------------------------------------------------- C15: purity battery with fresh-process references
+_PURITY_CALLS = None
+
+
+def _purity_calls():
+    """calls that differ in exactly the dimensions a cache key could forget: encoding / eci with equal byte lengths, equal lengths in different
+    modes, equal contents with different level / version / mask / micro flag, equal-hashing arguments"""
+    global _PURITY_CALLS
+    if _PURITY_CALLS is None:
+        c = []
+        for n in (1, 7, 8, 9, 17, 53):
+            c += [('a' * n, dict(error='L', eci=True, micro=False)), ('\xe4' * n, dict(error='L', eci=True, micro=False)),
+                  ('\xe4' * (n // 2) + 'a' * (n - 2 * (n // 2)), dict(error='L', eci=True, micro=False, encoding='utf-8')),
+                  ('\xe4' * n, dict(error='L', eci=True, micro=False, encoding='latin1')), ('a' * n, dict(error='L', micro=False)),
+                  ('A' * n, dict(error='L', micro=False)), ('1' * n, dict(error='L', micro=False)), ('1' * n, dict(error='L'))]
+        c += [('1', {}), (1, {}), (True, {}), ('True', {}), ('HELLO', {}), ('HELLO', dict(error='h')), ('hello', dict(micro=False)), ('Hello World', dict(version=5)),
+              ('12345678901234567890', dict(version=2, mask=1)), ('ABC', dict(version='M3')), ('ABC', dict(version=3)), ('点', dict(mode='kanji')),
+              ('点', dict(encoding='utf-8')), ('x' * 100, dict(error='q', boost_error=False)), ('x' * 100, dict(version=10)), ('0' * 300, {}),
+              ('A' * 40, dict(version=4)), ('A' * 40, dict(version=27)), ('ab', dict(version=27, mask=7)), ('ab', dict(version=1, mask=7)),
+              ('ab', dict(version=1, mask=2)), ('ab', dict(version=7, mask=2)), ('ab', dict(version=7))]
+        _PURITY_CALLS = c
+    return _PURITY_CALLS
+
+
+def _purity_result(c, kw):
+    import hashlib
+    try:
+        q = segno.make(c, **kw)
+        return '%s/%d/%s' % (q.designator, q.mask, hashlib.sha1(b''.join(bytes(r) for r in q.matrix)).hexdigest()[:16])
+    except ValueError as ex:
+        return 'ValueError'
+
+
+def purity_fresh_reference(indices):
+    """result of call i computed in a fresh interpreter (nothing encoded before)"""
+    import subprocess
+    import sys
+    import json as _json
+    from concurrent.futures import ThreadPoolExecutor
+    import os
+    root = os.path.dirname(os.path.dirname(os.path.abspath(segno.__file__)))
+    verif = os.path.dirname(os.path.dirname(os.path.abspath(__file__)))
+
+    def one(i):
+        code = 'import sys; sys.path[:0] = [%r, %r]\nfrom spec import replays as R\nc, kw = R._purity_calls()[%d]\nprint(R._purity_result(c, kw))' % (root, verif, i)
+        p = subprocess.run([sys.executable, '-c', code], capture_output=True, text=True, timeout=120)
+        return p.stdout.strip().split('\n')[-1] if p.returncode == 0 else 'subprocess failed: ' + p.stderr[-200:]
+    with ThreadPoolExecutor(8) as ex:
+        return dict(zip(indices, ex.map(one, indices)))
+
+
+def purity_battery(seed=0, pairs=1200):
+    """native purity battery: (1) every call after every other call gives the result a fresh interpreter gives; (2) 16 threads that encode symbols of one
+    size at once in a COLD interpreter give the sequential results.  Returns a list of problems."""
+    import random
+    import subprocess
+    import sys
+    import os
+    calls = _purity_calls()
+    idx = list(range(len(calls)))
+    fresh = purity_fresh_reference(idx)
+    probs = []
+    rnd = random.Random(seed)
+    order = [(i, j) for i in idx for j in idx]
+    rnd.shuffle(order)
+    for i, j in order[:pairs]:
+        _purity_result(*calls[i])
+        got = _purity_result(*calls[j])
+        if got != fresh[j]:
+            probs.append('make(%r, **%r) gives %s in a fresh interpreter but %s after make(%r, **%r) (and the calls before it)' % (
+                calls[j][0] if len(repr(calls[j][0])) < 30 else repr(calls[j][0])[:30], calls[j][1], fresh[j], got,
+                calls[i][0] if len(repr(calls[i][0])) < 30 else repr(calls[i][0])[:30], calls[i][1]))
+            if len(probs) >= 3:
+                return probs
+    root = os.path.dirname(os.path.dirname(os.path.abspath(segno.__file__)))
+    verif = os.path.dirname(os.path.dirname(os.path.abspath(__file__)))
+    code = '''import sys, threading
+sys.path[:0] = [%r, %r]
+sys.setswitchinterval(1e-6)
+import segno
+from spec import replays as R
+contents = [('%%s%%d' %% (w, t), dict(version=V, micro=False)) for t, w in enumerate(['alpha', 'Bravo', '12345', 'DELTA', 'echo!', 'f0xtr', 'GOLF7', 'hotel'] * 2)]
+res = {}
+start = threading.Barrier(len(contents))
+def work(t):
+    start.wait()
+    res[t] = R._purity_result(*contents[t])
+th = [threading.Thread(target=work, args=(t,)) for t in range(len(contents))]
+[x.start() for x in th]; [x.join() for x in th]
+bad = [t for t in range(len(contents)) if res.get(t) != R._purity_result(*contents[t])]
+print('BAD' if bad else 'OK', bad)
+''' % (root, verif)
+    for V in (1, 2, 5, 7, 10, 1, 2, 5):
+        p = subprocess.run([sys.executable, '-c', code.replace('V,', '%d,' % V)], capture_output=True, text=True, timeout=300)
+        out = p.stdout.strip().split('\n')[-1] if p.stdout.strip() else p.stderr[-200:]
+        if not out.startswith('OK'):
+            probs.append('16 threads encoding version %d symbols at once in a cold interpreter: results differ from the sequential ones (%s)' % (V, out[:120]))
+            break
+    return probs
+
+
+def purity_schedules():
+    """bounded, systematic schedule exploration: thread B encodes a complete symbol while thread A is suspended at the entry of the k-th module level
+    function of segno.encoder, for EVERY k, each schedule starting from a cold module state (importlib.reload); both results must be the sequential ones"""
+    import importlib
+    import sys
+    import threading
+    import types
+    probs = []
+    configs = [('alpha 1', 'Bravo 2', dict(version=2, micro=False)), ('alpha 1', 'Bravo 2', dict(version=7, micro=False)), ('1234', '9876', dict(version='M4')),
+               ('alpha 1', 'Bravo 2', dict(version=1, micro=False, error='h')), ('HELLO', 'WORLD', {})]
+    for ca, cb, kw in configs:
+        importlib.reload(encoder)
+        top = {n for n, v in vars(encoder).items() if isinstance(v, types.FunctionType) and v.__module__ == encoder.__name__}
+        want_a, want_b = _purity_result(ca, kw), _purity_result(cb, kw)
+        k, total = 1, None
+        while total is None or k <= total:
+            importlib.reload(encoder)
+            count = [0]
+            box = {}
+
+            def tracer(frame, event, arg):
+                if event == 'call' and frame.f_code.co_name in top and frame.f_code.co_filename == encoder.__file__:
+                    count[0] += 1
+                    if count[0] == k:
+                        t = threading.Thread(target=lambda: box.__setitem__('b', _purity_result(cb, kw)))
+                        t.start()
+                        t.join()
+                return None
+            sys.settrace(tracer)
+            try:
+                got_a = _purity_result(ca, kw)
+            finally:
+                sys.settrace(None)
+            total = count[0] if total is None else total
+            if got_a != want_a or box.get('b', want_b) != want_b:
+                probs.append('make(%r, **%r) in thread A suspended at the entry of its %d. encoder function while thread B runs make(%r, **%r): A gives %s (sequential %s), B gives %s (sequential %s)' % (
+                    ca, kw, k, cb, kw, got_a, want_a, box.get('b'), want_b))
+                break
+            k += 1
+        if probs:
+            break
+    importlib.reload(encoder)
+    return probs
